@@ -24,6 +24,7 @@ VALUES = {"defocus": [-50.0, 20.0, 80.0, 140.0, -110.0], "C30": [0.0, 1.0e5, -2.
           "phi12": [0.0, 0.5, 1.0, 1.5, -0.7], "semiangle_cutoff": [15.0, 20.0, 25.0, 12.0, 28.0], "tilt_x": [0.0, 3.0, -4.0, 6.0, 1.5],
           "tilt_y": [2.0, -1.0, 5.0, -3.5, 0.5], "focal_spread": [5.0, 20.0, 40.0, 60.0, 10.0], "angular_spread": [0.3, 1.0, 2.0, 0.6, 1.5]}
 POSITIONS = np.array([[0.0, 0.0], [1.3, 0.7], [2.9, 3.1], [0.4, 2.2], [3.3, 1.1]])
+WEIGHTS = [0.5, 2.0, 1.5, 0.25, 1.25]
 COMPANION = {"zero": {"tilt": (0.0, 0.0), "ab": {}}, "nonzero": {"tilt": (2.5, -1.5), "ab": {"C30": 4.0e4, "defocus": 15.0}}}
 
 
@@ -82,7 +83,8 @@ def observe(c):
     try:
         with warnings.catch_warnings():
             warnings.simplefilter("ignore")
-            kw = {p: abtem.distributions.from_values(np.array(vals[p]), ensemble_mean=mean) for p in dist_params}
+            wts = {p: (np.array(WEIGHTS[: lens[p]]) * (1.0 + 0.5 * k) if c.get("weighted") else None) for k, p in enumerate(dist_params)}
+            kw = {p: abtem.distributions.from_values(np.array(vals[p]), weights=wts[p], ensemble_mean=mean) for p in dist_params}
             res = run_object(c["obj"], kw, c["soft"], c["lazy"], detect=mean, positions=pos, propagate=prop,
                              max_batch=2 if c.get("batch") == "two" else "auto", companion=c.get("companion", "zero"))
             if hasattr(res, "compute") and c["lazy"]:
@@ -99,7 +101,8 @@ def observe(c):
             for combo in itertools.product(*[range(lens[p]) for p in dist_params]):
                 kw = {p: vals[p][i] for p, i in zip(dist_params, combo)}
                 r = run_object(c["obj"], kw, c["soft"], False, detect=mean, positions=pos, propagate=prop, companion=c.get("companion", "zero"))
-                scal[combo] = np.asarray(r.array)
+                wprod = float(np.prod([wts[p][i] for p, i in zip(dist_params, combo)])) if c.get("weighted") else 1.0
+                scal[combo] = np.asarray(r.array) * wprod
     except Exception as ex:
         ev["scalar_raised"] = True
         ev["scalar_exc"] = f"{type(ex).__name__}: {ex}"[:300]
@@ -170,7 +173,7 @@ def self_test(ctx: Ctx):
 def run(ctx: Ctx):
     quick = ctx.tier == "quick"
     ctx.rule = ("cases = object x subset (size 1-2) of its distribution-capable parameters (defocus, C30, C12, phi12, semiangle_cutoff, "
-                "tilt components, focal/angular spread, probe positions) x lengths 1-3 and 5 (the latter lazily with max_batch 2: uneven blocks) x zero / non-zero scalar companions (tilt, Cs, defocus) x soft/hard x ensemble_mean x lazy/eager, "
+                "tilt components, focal/angular spread, probe positions) x lengths 1-3 and 5 (the latter lazily with max_batch 2: uneven blocks) x unit / non-unit weights (transfer functions applied to waves: member = weight x scalar run) x zero / non-zero scalar companions (tilt, Cs, defocus) x soft/hard x ensemble_mean x lazy/eager, "
                 "enumerated by TLC; the ensemble run is compared member by member with scalar runs; non-trivial = a distribution of "
                 "length >= 2")
     r = ctx.design_check("Decomp", "Decomp.cfg", label="case space", workers=1)
@@ -184,7 +187,8 @@ def run(ctx: Ctx):
         # every (object, parameter set) once, every (object, uneven batching) and (object, non-zero companions) once, then the seeded remainder
         seen, first, rest = set(), [], []
         for c in cases:
-            ks = [("p", c["obj"], tuple(sorted(c["params"]))), ("b", c["obj"], c["batch"], tuple(sorted(c["params"]))[0]), ("c", c["obj"], c["companion"], c["lazy"])]
+            ks = [("p", c["obj"], tuple(sorted(c["params"]))), ("b", c["obj"], c["batch"], tuple(sorted(c["params"]))[0]), ("c", c["obj"], c["companion"], c["lazy"]),
+                  ("w", c["obj"], c.get("weighted"), c["batch"], c["lazy"])]
             new = [k for k in ks if k not in seen]
             (first if new else rest).append(c)
             seen.update(ks)
